@@ -77,6 +77,11 @@ func (c c19) Run(ctx *core.Ctx) error {
 			cases = append(cases, core.J(c19Case{Kind: "reader", Word: w, Subj: subj}))
 		}
 	}
+	// objects that were constructed but never opened, or whose Open failed (a file shorter than its header, a table with a
+	// cut index): Close - or the failed constructor itself - must release whatever was acquired so far
+	for _, subj := range []string{"rio-seq-unopened", "rio-seq-openfail", "rio-mmap-unopened", "rio-mmap-openfail", "rio-writer-unopened", "sstable-openfail-slice", "sstable-openfail-disk", "sstable-openfail-data", "wal-replay-openfail"} {
+		cases = append(cases, core.J(c19Case{Kind: "reader", Word: "", Subj: subj}))
+	}
 	// tables written by earlier versions of the library (other close paths), each loader, words up to length 2
 	for fi := range legacyTables() {
 		for _, l := range []string{"slice", "skiplist", "disk"} {
@@ -374,7 +379,76 @@ func (c c19) readerCase(w *core.WCtx, cs c19Case) core.Result {
 			return err
 		}
 	}
+	noop := func(ch rune) error { return nil }
+	short := filepath.Join(dir, "short.rio") // 3 bytes: shorter than the 8-byte file header
+	os.WriteFile(short, []byte{4, 0, 0}, 0o644)
 	switch {
+	case cs.Subj == "rio-seq-unopened" || cs.Subj == "rio-seq-openfail":
+		path := rio
+		if cs.Subj == "rio-seq-openfail" {
+			path = short
+		}
+		rd, err := recordio.NewFileReader(recordio.ReaderPath(path), recordio.ReaderBufferSizeBytes(4096))
+		if err != nil {
+			viol("constructor: %v", err)
+			return r
+		}
+		if cs.Subj == "rio-seq-openfail" {
+			if err := rd.Open(); err == nil {
+				viol("Open of a 3-byte file succeeded")
+			}
+		}
+		closeFn, act = func() error { rd.Close(); return nil }, noop
+	case cs.Subj == "rio-mmap-unopened" || cs.Subj == "rio-mmap-openfail":
+		path := rio
+		if cs.Subj == "rio-mmap-openfail" {
+			path = short
+		}
+		rd, err := recordio.NewMemoryMappedReaderWithPath(path)
+		if err != nil {
+			viol("constructor: %v", err)
+			return r
+		}
+		if cs.Subj == "rio-mmap-openfail" {
+			if err := rd.Open(); err == nil {
+				viol("Open of a 3-byte file succeeded")
+			}
+		}
+		closeFn, act = func() error { rd.Close(); return nil }, noop
+	case cs.Subj == "rio-writer-unopened":
+		wr, err := recordio.NewFileWriter(recordio.Path(filepath.Join(dir, "w2.rio")), recordio.BufferSizeBytes(16))
+		if err != nil {
+			viol("constructor: %v", err)
+			return r
+		}
+		closeFn, act = func() error { wr.Close(); return nil }, noop
+	case strings.HasPrefix(cs.Subj, "sstable-openfail-"):
+		// the table loses the tail of its index (or data) file: the constructor must fail and leave nothing open
+		victim := sstables.IndexFileName
+		loader := strings.TrimPrefix(cs.Subj, "sstable-openfail-")
+		if loader == "data" {
+			victim, loader = sstables.DataFileName, "slice"
+		}
+		b := readAll(filepath.Join(t1, victim))
+		os.WriteFile(filepath.Join(t1, victim), b[:len(b)-3], 0o644)
+		rd, err := openTable(t1, tblR{Loader: loader, RBuf: 4096})
+		if err == nil {
+			// (the disk index reads lazily and may open fine: then it is an ordinary reader)
+			closeFn, act = rd.Close, noop
+		} else {
+			closeFn, act = func() error { return nil }, noop
+		}
+	case cs.Subj == "wal-replay-openfail":
+		// a WAL directory whose only file is shorter than a header
+		wd := filepath.Join(dir, "wal2")
+		mustMkdir(wd)
+		os.WriteFile(filepath.Join(wd, "000000.wal"), []byte{4, 0, 0}, 0o644)
+		o2, _ := walOptions(wd, 24, 4096)
+		rep, err := wal.NewReplayer(o2)
+		if err == nil {
+			rep.Replay(func(record []byte) error { return nil })
+		}
+		closeFn, act = func() error { return nil }, noop
 	case strings.HasPrefix(cs.Subj, "legacy-"):
 		var fi int
 		var loader string
